@@ -602,6 +602,7 @@ fn boundaries(m: &Msg) -> Vec<usize> {
 
 fn main() {
     let ctx = Ctx::from_args("C30");
+    pin_mmap_threshold();
     let env = Env { seed: ctx.seed };
     let nmax: usize = ctx.tier.pick(12, 18);
     let list_len: usize = 3;
@@ -668,6 +669,31 @@ fn main() {
     }
     for i in 0..limits.len() {
         jobs.push(Job::Limit(i));
+    }
+    if std::env::var("C30_TIMING").is_ok() {
+        eprintln!("setup done after {:.2}s, {} jobs", t0.elapsed().as_secs_f64(), jobs.len());
+        let m = &msgs[3];
+        let written = write_real(m, usize::MAX, false).unwrap().unwrap();
+        let s = Stream { is_req: m.is_req(), msg: Some(m.clone()), truncate: None, garbage: None };
+        let prep = prepare(&s, &written);
+        let t = std::time::Instant::now();
+        for i in 0..20000u64 {
+            let _ = read_real(true, &prep.bytes, ChunkEnds::Mask(i & 3), i % 2 == 0);
+        }
+        eprintln!("20000 request reads: {:.3}s", t.elapsed().as_secs_f64());
+        let m = &msgs[80];
+        let written = write_real(m, usize::MAX, false).unwrap().unwrap();
+        let t = std::time::Instant::now();
+        for i in 0..20000u64 {
+            let _ = read_real(false, &written, ChunkEnds::Mask(i & 3), i % 2 == 0);
+        }
+        eprintln!("20000 response reads: {:.3}s", t.elapsed().as_secs_f64());
+        let t = std::time::Instant::now();
+        let mut r = Report::new();
+        for i in 0..20000u64 {
+            eval(&env, &s, &prep, &Chunks::Mask(i & 3), i % 2 == 0, &mut r);
+        }
+        eprintln!("20000 evals: {:.3}s", t.elapsed().as_secs_f64());
     }
     // cheap jobs first, compositions ordered by message (simplest first)
     let composed_msgs = AtomicU64::new(0);
